@@ -41,10 +41,17 @@ def eval_const(expr, env):
     e = re.sub(r"\bu64::MAX\b", str(2**64 - 1), e)
     e = re.sub(r"\bu32::MAX\b", str(2**32 - 1), e)
     e = re.sub(r"\busize::MAX\b", str(2**64 - 1), e)
-    e = re.sub(r"\bas\s+(usize|u64|u32|f64|u8)\b", "", e)
-    e = re.sub(r"(\d)_(\d)", r"\1\2", e)
-    e = re.sub(r"(\d)_(\d)", r"\1\2", e)
-    e = re.sub(r"(\d)(u8|u32|u64|usize|f64|f32)\b", r"\1", e)
+    e = re.sub(r"\bu16::MAX\b", str(2**16 - 1), e)
+    e = re.sub(r"\bu8::MAX\b", str(2**8 - 1), e)
+    e = re.sub(r"\b(u64|u32|usize|u16|u8)::MIN\b", "0", e)
+    e = re.sub(r"\b(?:u64|u32|usize|u16|u8)::max_value\(\)", lambda m: str({"u64": 2**64, "usize": 2**64, "u32": 2**32, "u16": 2**16, "u8": 2**8}[m.group(0).split(":")[0]] - 1), e)
+    e = re.sub(r"\bas\s+(usize|u64|u32|u16|u8|i64|i32|f64|f32)\b", "", e)
+    # literal spellings: digit separators, type suffixes (with or without an underscore), hex/octal/binary
+    e = re.sub(r"(\d)_?(u8|u16|u32|u64|usize|i32|i64|f64|f32)\b", r"\1", e)
+    e = re.sub(r"\b\d[0-9a-zA-Z_.]*", lambda m: m.group(0).replace("_", ""), e)
+    e = re.sub(r"\b0x[0-9a-fA-F]+\b", lambda m: str(int(m.group(0), 16)), e)
+    e = re.sub(r"\b0o[0-7]+\b", lambda m: str(int(m.group(0)[2:], 8)), e)
+    e = re.sub(r"\b0b[01]+\b", lambda m: str(int(m.group(0)[2:], 2)), e)
 
     def name(m):
         n = m.group(0)
@@ -54,8 +61,8 @@ def eval_const(expr, env):
 
     e = re.sub(r"\b[A-Za-z_][A-Za-z0-9_]*\b", lambda m: m.group(0) if re.fullmatch(r"\d+(\.\d+)?(e\d+)?", m.group(0)) else name(m), e)
     # exact rational arithmetic for decimals
-    e = re.sub(r"\d+\.\d+(e-?\d+)?|\d+e-?\d+", lambda m: f"Fraction('{m.group(0)}')", e)
-    if not re.fullmatch(r"[\d\s()+\-*<>/.,'Fraction]*", e):
+    e = re.sub(r"\d+\.\d*(?:[eE][-+]?\d+)?|\d+[eE][-+]?\d+", lambda m: "Fraction('" + (m.group(0) + "0" if m.group(0).endswith(".") else m.group(0)) + "')", e)
+    if not re.fullmatch(r"[\d\s()+\-*<>/.,'FractioneE]*", e):
         raise ExtractError(f"unsupported constant expression {expr!r}")
     try:
         return eval(e, {"Fraction": Fraction, "__builtins__": {}})
@@ -250,14 +257,15 @@ def gen_consts():
     L.append(f"/-- the decimal literal DIST_MIN_PROBABILITY as an exact rational (the f64 constant is its rounding) -/")
     L.append(f"def DIST_MIN_PROBABILITY_NUM : Nat := {q.numerator}")
     L.append(f"def DIST_MIN_PROBABILITY_DEN : Nat := {q.denominator}")
-    m = re.search(r"if\s+trials\s*>\s*([0-9_]+)", d)
+    env = {k: v for k, v in dc.items() if not k.startswith("__")}
+    m = re.search(r"if\s+trials\s*>\s*([^{]+)\{", d)
     if not m:
         raise ExtractError("Binomial trials threshold not found")
-    L.append(f"def BINOMIAL_MAX_TRIALS : Nat := {int(m.group(1).replace('_', ''))}")
-    m = re.search(r"if\s+lambda\s*>\s*([0-9_]+)\.0", d)
+    L.append(f"def BINOMIAL_MAX_TRIALS : Nat := {as_nat('Binomial trials threshold', eval_const(m.group(1), env))}")
+    m = re.search(r"if\s+lambda\s*>\s*([^{]+)\{", d)
     if not m:
         raise ExtractError("Poisson lambda threshold not found")
-    L.append(f"def POISSON_MAX_LAMBDA : Nat := {int(m.group(1).replace('_', ''))}")
+    L.append(f"def POISSON_MAX_LAMBDA : Nat := {as_nat('Poisson lambda threshold', eval_const(m.group(1), env))}")
     L.append("")
     L.append("end Mb.Gen")
     return "\n".join(L) + "\n"
